@@ -106,14 +106,13 @@ def run_tlc(cwd, module, cfg, workers, timeout, env=None, cont=False, tlines=Non
     for line in p.stdout:
         if line.startswith('<<"T", '):
             try:
-                d = json.loads(json.loads(line[len('<<"T", '):].rstrip()[:-2]))
+                inner = json.loads(line[len('<<"T", '):].rstrip()[:-2])
             except Exception:
                 out["errors"].append("undecodable T line")
                 continue
             out["ntrans"] += 1
             if tf:
-                d["fix"] = out["fix"] or []
-                tf.write(json.dumps(d) + "\n")
+                tf.write(inner + "\n")
             continue
         if line.startswith('<<"FIX", '):
             out["fix"] = json.loads(json.loads(line[len('<<"FIX", '):].rstrip()[:-2]))
@@ -170,7 +169,7 @@ def prep_spec(run, sub="core"):
 
 
 # ----------------------------------------------------------------------------------------- E1 core engine
-CODE_KF = ["F5", "F7", "F9", "F15", "F18", "F19", "F20"]   # deviations of the code from the intended design that the spec can reproduce
+CODE_KF = ["F7", "F9", "F15", "F18"]   # deviations of the code from the intended design that the spec can reproduce
 
 def tla_set(xs):
     return "{" + ", ".join('"%s"' % x if isinstance(x, str) else str(x) for x in xs) + "}"
@@ -194,8 +193,10 @@ def scenario_cfg(sc, emit, check, kf, depth=None):
 ALL_EDIT = ["CreateSub", "CreateNamed", "Remove", "RemoveKind", "Rename", "SetRef", "Copy", "Move", "SetText", "RemoveText", "SetComment"]
 SCENARIOS = {
     # name: fixture, depth (quick, thorough), op set, universes
-    "edit1": dict(fix="F1", depth=1, tdepth=2, ops=ALL_EDIT, elems=["AR-PACKAGES", "ELEMENTS", "CATEGORY", "SYSTEM-SIGNAL-REF", "SHORT-NAME"],
+    "edit1": dict(fix="F1", depth=2, tdepth=2, ops=ALL_EDIT, elems=["AR-PACKAGES", "ELEMENTS", "CATEGORY", "SYSTEM-SIGNAL-REF", "SHORT-NAME"],
                   named=["AR-PACKAGE", "SYSTEM-SIGNAL", "I-SIGNAL"], names=["a", "s", "b"], pos=[0, 1], wild=True),
+    "refs": dict(fix="F2", depth=2, tdepth=3, ops=["Rename", "Move", "Remove", "SetRef", "SetText", "RemoveText", "CreateNamed"], elems=[],
+                 named=["SYSTEM-SIGNAL"], names=["s", "s1", "b", "p"], pos=[], wild=False),
 }
 
 
@@ -222,27 +223,66 @@ def e1_run(tier):
         os.makedirs(sdir)
         # (1) design check: intended design (KF = {}) satisfies every property predicate in every reachable state
         open(os.path.join(spec, name + "_design.cfg"), "w").write(scenario_cfg(sc, False, True, [], depth))
-        d = run_tlc(spec, "MC_fixtures.tla", name + "_design.cfg", 16, 3000 if tier == "thorough" else 600, cont=True)
+        d = run_tlc(spec, "MC_fixtures.tla", name + "_design.cfg", 16, 3000 if tier == "thorough" else 900, cont=True) if CODE_KF else \
+            {"tagged": [], "rc": 0, "errors": [], "distinct": 0, "generated": 0, "wall": 0}
         fails = {}
         for tl in d["tagged"]:
             tag, rest = decode_tagged(tl)
             if tag in ("PROPFAIL", "APROPFAIL"):
                 fails.setdefault(rest[0], rest[1] if len(rest) > 1 else "")
-        if d["rc"] not in (0, 12, 13) or any("Attempted" in e or "timeout" in e for e in d["errors"]):
+        if d["rc"] not in (0, 12, 13, 14) or any("Attempted" in e or "timeout" in e for e in d["errors"]):
             result["tool_errors"].append("design TLC %s: rc=%s %s" % (name, d["rc"], d["errors"][:3]))
         result["design_states"] += d["distinct"]
         result["design_transitions"] += d["generated"]
         result["design_findings"] += [{"scenario": name, "pred": k, "witness": v[:600]} for k, v in fails.items()]
-        # (2) generation: the specification with the code's known deviations switched on, one line per transition
-        open(os.path.join(spec, name + "_gen.cfg"), "w").write(scenario_cfg(sc, True, False, CODE_KF, depth))
+        # (2) generation: the specification with the code's known deviations switched on; the property predicates are
+        #     evaluated on every state and transition of it too (-continue): a failure there is a *candidate*, its
+        #     witness history is executed on the real library and judged on the real observations (step 4)
+        open(os.path.join(spec, name + "_gen.cfg"), "w").write(scenario_cfg(sc, True, True, CODE_KF, depth))
         trans = os.path.join(sdir, "trans.ndjson")
-        g = run_tlc(spec, "MC_fixtures.tla", name + "_gen.cfg", 16, 3000 if tier == "thorough" else 600, tlines=trans)
-        if g["rc"] != 0:
+        g = run_tlc(spec, "MC_fixtures.tla", name + "_gen.cfg", 16, 3000 if tier == "thorough" else 900, tlines=trans, cont=True)
+        if g["rc"] not in (0, 12, 13, 14) or any("Attempted" in e or "timeout" in e for e in g["errors"]):
             result["tool_errors"].append("gen TLC %s: rc=%s %s" % (name, g["rc"], g["errors"][:3]))
         result["states"] += g["distinct"]
         result["transitions"] += g["generated"]
+        cands = {}
+        for tl in g["tagged"]:
+            tag, rest = decode_tagged(tl)
+            if tag == "PROPFAIL":
+                h = json.loads(rest[1])
+                cands.setdefault(rest[0], []).append(h)
+            elif tag == "APROPFAIL":
+                w = json.loads(rest[1])
+                cands.setdefault(rest[0], []).append(w["h"] + [w["a"]])
+        witness = []
+        ncand = 0
+        for pred, hs in cands.items():
+            keys = set(json.dumps(h, sort_keys=True) for h in hs)
+            ncand += len(keys)
+            # keep histories none of whose proper prefixes fails the same predicate (first falsifying step)
+            minimal = [h for h in hs if not any(json.dumps(h[:k], sort_keys=True) in keys for k in range(0, len(h)))]
+            seenk = set()
+            for h in minimal:
+                k = json.dumps(h, sort_keys=True)
+                if k not in seenk:
+                    seenk.add(k)
+                    witness.append(h)
+        result["model_candidates"] = result.get("model_candidates", 0) + ncand
+        wk = set()
+        wfile = os.path.join(sdir, "witness_in.ndjson")
+        with open(wfile, "w") as f:
+            for h in witness:
+                k = json.dumps(h, sort_keys=True)
+                if k in wk:
+                    continue
+                wk.add(k)
+                if len(wk) > (400 if tier == "quick" else 4000):
+                    break
+                f.write(json.dumps({"fix": g["fix"] or [], "h": h}) + "\n")
+        sh([VH, "histories", "--in", wfile, "--out", os.path.join(sdir, "witness.ndjson"), "--models", "2", "--names", ",".join(sc["names"])], timeout=3600)
         # (3) replay on the real library
-        r = sh([VH, "replay", "--in", trans, "--out", sdir, "--models", "2", "--seed", str(seed()),
+        json.dump(g["fix"] or [], open(os.path.join(sdir, "fix.json"), "w"))
+        r = sh([VH, "replay", "--in", trans, "--fix", os.path.join(sdir, "fix.json"), "--out", sdir, "--models", "2", "--seed", str(seed()),
                 "--sample", "300" if tier == "quick" else "3000", "--names", ",".join(sc["names"])], timeout=7200)
         rs = json.loads(r.stdout.strip().splitlines()[-1])
         result["replayed"] += rs["transitions"]
@@ -253,7 +293,7 @@ def e1_run(tier):
         result["scenarios"][name] = {"design": {k: d[k] for k in ("generated", "distinct", "wall", "rc")},
                                      "gen": {k: g[k] for k in ("generated", "distinct", "wall", "rc", "ntrans")}, "replay": rs}
         # (4) TLC evaluates the property predicates on real observations: all mismatching steps + a sample of matching ones
-        for tr in ("mismatch.ndjson", "sample.ndjson"):
+        for tr in ("mismatch.ndjson", "witness.ndjson", "sample.ndjson"):
             v = validate_trace(spec, os.path.join(sdir, tr), name + "/" + tr)
             result["validated_steps"] += v["steps"]
             result["verdicts"] += v["verdicts"]
@@ -334,7 +374,7 @@ def check_e1(prop, tier):
         if sig in seen:
             continue
         seen.add(sig)
-        hit = [f for f in kf.get("findings", []) if f["property"] == prop and f["id"] in v.get("kf", [])]
+        hit = [f for f in kf.get("findings", []) if f["id"] in v.get("kf", [])]
         if hit:
             known.setdefault(hit[0]["id"], hit[0])
             continue
